@@ -103,3 +103,19 @@ Print Assumptions C14_control_entry_names.
 Print Assumptions C14_load_standard_package.
 Print Assumptions C14_reject_no_control_member.
 Print Assumptions C14_same_result_every_time.
+
+(* ---- field names of the control file are not case-sensitive (Policy 5.1; the r13 finding field-name-case, repaired by
+   the decoder's fold lookup): the control paragraph of a package, with its field names respelled in another letter case
+   (no two of its fields differing in case only), decodes to the same record - the required fields Package, Version and
+   Architecture are found, none is left at its zero value ---- *)
+Require C9G C9F CX Schema_gen.
+Theorem C14_control_field_names_are_case_insensitive : forall p p', C9F.fold_distinct p -> C9F.respelled p p' ->
+  C9F.decode_fold CX.fd CX.cval CX.czero CX.cdecode (CX.gschema Schema_gen.deb_control_schema) p =
+  C9F.decode_fold CX.fd CX.cval CX.czero CX.cdecode (CX.gschema Schema_gen.deb_control_schema) p'.
+Proof. exact (C9F.decode_fold_respelled CX.fd CX.cval CX.czero CX.cdecode (CX.gschema Schema_gen.deb_control_schema)). Qed.
+Example C14_lower_case_control_file :
+  CX.decode_text Schema_gen.deb_control_schema (s "package: x" ++ [nl] ++ s "VERSION: 1.0" ++ [nl] ++ s "Architecture: amd64" ++ [nl]) =
+  CX.decode_text Schema_gen.deb_control_schema (s "Package: x" ++ [nl] ++ s "Version: 1.0" ++ [nl] ++ s "Architecture: amd64" ++ [nl]) /\
+  CX.decode_text Schema_gen.deb_control_schema (s "package: x" ++ [nl] ++ s "VERSION: 1.0" ++ [nl] ++ s "Architecture: amd64" ++ [nl]) <> None.
+Proof. vm_compute. split; [reflexivity|discriminate]. Qed.
+Print Assumptions C14_control_field_names_are_case_insensitive.
